@@ -71,7 +71,7 @@ def load_mir(overflow='on'):
             with open(pk, 'rb') as f: return pickle.load(f), th
         except Exception: pass
     fns = parse_mir(open(path).read())
-    enums = parse_enums([open(p).read() for p in glob.glob(os.path.join(REPO, 'src', '*.rs'))])
+    enums = parse_enums([(os.path.basename(p)[:-3], open(p).read()) for p in sorted(glob.glob(os.path.join(REPO, 'src', '*.rs')))])
     with Lock('mirp'):
         tmp = pk + f'.tmp{os.getpid()}'
         with open(tmp, 'wb') as f: pickle.dump((fns, enums), f, protocol=pickle.HIGHEST_PROTOCOL)
@@ -284,6 +284,8 @@ def _worker(args):
 def pmap(fn, items, tier, jobs=None):
     """run fn(item, Obligations) for every item in forked workers; returns merged plain data"""
     items = list(items)
+    if os.environ.get('VERIF_ONLY'):      # debugging aid: run only the shapes whose description contains the substring
+        items = [it for it in items if os.environ['VERIF_ONLY'] in repr(it)]
     _G['fn'] = fn; _G['tier'] = tier
     jobs = jobs or NCPU
     if jobs <= 1 or len(items) <= 1 or os.environ.get('VERIF_SERIAL'):
